@@ -8,12 +8,13 @@ ID = "C01"
 COQ_PROP = "C01"
 FAMILIES = [(fam_docparse, 2500, 40000), (fam_docparseng, 2500, 30000), (fam_docemit, 1500, 20000)]
 TECHNIQUE = ("Coq proof (ReST: emit model -> style detection -> parse model -> same_interface under guard_C01_rest, unbounded in "
-             "the number of parameters; numpydoc/google: same under guard_C01_ng modulo the scan link, which is evaluated on every "
-             "in-guard point) + differential correspondence of the emit and parse models + round-trip oracle on the real emitter/parser")
+             "the number of parameters; numpydoc/google: same under guard_C01_ng, the scan link proved by induction over the parameter "
+             "list in props/C01Ext.v) + differential correspondence of the emit and parse models + round-trip oracle on the real emitter/parser")
 TRUSTED = [
     "modelled, not verified: ast.parse/ast.unparse on type strings (TyExpr), ast.literal_eval and float()/repr on scalar text, ASCII-only text",
-    "numpydoc/google: the hypothesis scan_link_b (scanner output on the emitted text equals the expected blocks) of C01_ng_partial_modulo_scan is "
-    "not proved; it is evaluated in the model on every in-guard oracle point and reported as a violation when false",
+    "numpydoc/google: the scan link (scanner output on the emitted text equals the expected blocks) is proved (C01_ng_scan_link); it is still "
+    "evaluated in the model on every in-guard oracle point as a cross-check of extraction and reported as a violation when false; the round trip "
+    "is about the specification printer text_of_o, tied to DocEmit / the real emitter by correspondence",
     "word_wrap=True emission is covered by correspondence and by the oracle (and by C18's theorems), not by the C01 round-trip theorem, which is "
     "stated for word_wrap off",
 ]
